@@ -3,6 +3,7 @@ import Replicon.Model.Wire
 import Replicon.Model.Tick
 import Replicon.Model.Visibility
 import Replicon.Model.Packing
+import Replicon.Model.Server
 /-
 Trace checker for replication system traces (`/verif/harness/src/sys.rs`).
 
@@ -85,9 +86,16 @@ structure State where
   /-- entities that lost the marker / were despawned since the last replication run -/
   leftRepl : List Nat := []
   running : Bool := false
+  /-- the protocol model of the server, driven in lock step -/
+  srv : Srv.Server := {}
+  /-- client-side pre-spawned entities: (client, entity bits) ↦ pre index -/
+  cents : List ((Nat × Nat) × Nat) := []
+  modelOff : Bool := false
+  elapsed : Nat := 0
   /-- the server was (re)started and has not run a frame yet: `ServerTick` counts as changed -/
   freshStart : Bool := false
   authCheck : Bool := false
+  authCustom : Bool := false
   /-- clients whose session ended at some point of this case -/
   hadDisconnect : List Nat := []
   /-- per client: ticks of update messages delivered since the last client frame -/
@@ -419,10 +427,197 @@ def checkFrame (st : State) (snap : Snap) (fm : FrameMsgs) (ticked : Bool) : Lis
       vs := vs ++ [Verdict.oracle "C11" s!"server still sends replication messages in round {st.flushRound} of a quiescent, fully acknowledged suffix (updates to {fm.updates.map (·.1)}, mutates to {fm.mutates.map (·.1)})"]
   return vs
 
+
+/-! ### lock-step protocol model of the server (Model/Server.lean) -/
+
+def letterFns (k : String) : Option Nat :=
+  match k with
+  | "A" => some 0 | "B" => some 1 | "O" => some 2 | "P" => some 3 | "R" => some 4 | "L" => some 5 | _ => none
+
+def modelRates : List (Nat × Srv.Rate) :=
+  [(0, .every), (1, .every), (2, .once), (3, .periodic 3), (4, .every), (5, .every)]
+
+/-- `K=v` tokens of a spawn / ins / mut line as model components; an `R` whose target is not
+alive is skipped (the harness does the same) -/
+def modelComps (m : Srv.Server) (toks : List String) : List (Nat × Nat) :=
+  toks.filterMap fun kv =>
+    match kv.splitOn "=" with
+    | [k, v] =>
+      match letterFns k, v.toNat? with
+      | some f, some n => if f = 4 && (Srv.aget m.world n).isNone then none else some (f, n)
+      | _, _ => none
+    | _ => none
+
+def sortPairs (l : List (Nat × Nat)) : List (Nat × Nat) :=
+  (l.toArray.qsort (fun a b => a.1 < b.1 || (a.1 == b.1 && a.2 < b.2))).toList
+
+/-- canonical form of a decoded real entity record: entity index, sorted (fns, value) with
+entity-valued components translated to harness indices -/
+def canonReal (st : State) (ec : Wire.EntComps) : Option (Nat × List (Nat × Nat)) :=
+  (lookupBits st ec.ent).map fun i =>
+    (i, sortPairs (ec.comps.map fun c =>
+      if c.fns = 4 then (4, (st.bits.lookup c.value).getD 999999) else (c.fns, c.value)))
+
+def canonModel (m : Srv.MsgEnt) : Nat × List (Nat × Nat) := (m.ent, sortPairs m.comps)
+
+def sortEnts (l : List (Nat × List (Nat × Nat))) : List (Nat × List (Nat × Nat)) :=
+  (l.toArray.qsort (fun a b => a.1 < b.1)).toList
+
+/-- compare what the model sends to client `c` with the decoded real messages -/
+def compareClient (st : State) (c : Nat) (o : Option Srv.ClientOut) (fm : FrameMsgs) (tick : Nat) : List Verdict :=
+  let realU := (fm.updates.filter (·.1 = c)).map (·.2)
+  let realM := (fm.mutates.filter (·.1 = c)).map (·.2.1)
+  let modelU : Option Srv.Update := o.bind (·.update)
+  let modelM : List Srv.MsgEnt := (o.map (·.mutEnts)).getD []
+  let vU := match modelU, realU with
+    | none, [] => []
+    | some mu, [ru] =>
+      let rd := sortNat (ru.despawns.filterMap (lookupBits st))
+      let rr := sortEnts (ru.removals.filterMap fun r => (lookupBits st r.ent).map fun i => (i, sortPairs (r.fns.map fun f => (f, 0))))
+      let rc := sortEnts (ru.changes.filterMap (canonReal st))
+      let rm := sortPairs (ru.mappings.filterMap fun (se, ce) =>
+        match lookupBits st se, st.cents.lookup (c, Wire.Ent.bits ce) with
+        | some i, some p => some (i, p)
+        | _, _ => none)
+      let md := sortNat mu.despawns
+      let mr := sortEnts (mu.removals.map fun (e, ks) => (e, sortPairs (ks.map fun k => (k, 0))))
+      let mc := sortEnts (mu.changes.map canonModel)
+      let mm := sortPairs mu.mappings
+      (if ru.tick = mu.tick then [] else [Verdict.mismatch "SRV" s!"tick {tick} client {c}: update tick impl {ru.tick} model {mu.tick}"]) ++
+      (if rd = md then [] else [Verdict.mismatch "SRV" s!"tick {tick} client {c}: DESPAWNS impl {rd} model {md}"]) ++
+      (if rr = mr then [] else [Verdict.mismatch "SRV" s!"tick {tick} client {c}: REMOVALS impl {rr} model {mr}"]) ++
+      (if rc = mc then [] else [Verdict.mismatch "SRV" s!"tick {tick} client {c}: CHANGES impl {rc} model {mc}"]) ++
+      (if rm = mm && rm.length = ru.mappings.length then [] else [Verdict.mismatch "SRV" s!"tick {tick} client {c}: MAPPINGS impl {rm} model {mm}"])
+    | none, _ => [Verdict.mismatch "SRV" s!"tick {tick} client {c}: the implementation sent {realU.length} update message(s), the model none"]
+    | some mu, _ => [Verdict.mismatch "SRV" s!"tick {tick} client {c}: the model sends an update message (despawns {mu.despawns}, removals {mu.removals.map (·.1)}, changes {mu.changes.map (·.ent)}, mappings {mu.mappings}), the implementation sent {realU.length}"]
+  let rme := sortEnts ((realM.flatMap (·.ents)).filterMap (canonReal st))
+  let mme := sortEnts (modelM.map canonModel)
+  let vM := if rme = mme then [] else [Verdict.mismatch "SRV" s!"tick {tick} client {c}: mutations impl {rme} model {mme}"]
+  let ut := (o.map fun _ => 0).getD 0
+  let _ := ut
+  vU ++ vM
+
+
+/-- Drive the server model by one record and compare its messages with the real ones. -/
+def modelStep (st : State) (inp : List String) (obs : List String) : State × List Verdict :=
+  if st.modelOff then (st, []) else
+  let m := st.srv
+  let ok : Bool := match obs.head? with
+    | some o => (toks o).head? == some "ok"
+    | none => false
+  match inp with
+  | "spawn" :: e :: rest =>
+    match e.toNat?, obs.head?.map toks with
+    | some e, some ("ent" :: _) =>
+      let marked := rest.contains "m=1"
+      ({ st with srv := m.spawn e marked (modelComps m rest) }, [])
+    | _, _ => (st, [])
+  | ["despawn", _] =>
+    if !ok then (st, []) else
+    let alive := parseNatList ((kv (toks (obs.headD "")) "alive").getD "-")
+    -- the entity and, through Bevy's hierarchy, its children
+    let gone := (m.world.map (·.1)).filter fun e => !alive.contains e
+    ({ st with srv := gone.foldl (fun m e => m.despawn e) m }, [])
+  | ["ins", e, kvs] =>
+    if !ok then (st, []) else
+    match e.toNat?, modelComps m [kvs] with
+    | some e, [(k, v)] => ({ st with srv := m.insert e k v }, [])
+    | _, _ => (st, [])
+  | ["mut", e, kvs] =>
+    if !ok then (st, []) else
+    match e.toNat?, modelComps m [kvs] with
+    | some e, [(k, v)] => ({ st with srv := m.mutate e k v }, [])
+    | _, _ => (st, [])
+  | ["rem", e, k] =>
+    if !ok then (st, []) else
+    match e.toNat?, letterFns k with
+    | some e, some k => ({ st with srv := m.remove e k }, [])
+    | _, _ => (st, [])
+  | ["mark", e, v] =>
+    if !ok then (st, []) else
+    match e.toNat? with
+    | some e => ({ st with srv := m.mark e (v = "1") }, [])
+    | none => (st, [])
+  | ["vis", c, e, v] =>
+    if !ok then (st, []) else
+    match c.toNat?, e.toNat? with
+    | some c, some e => ({ st with srv := m.setVisibility c e (v = "1") }, [])
+    | _, _ => (st, [])
+  | ["map", c, e, p] =>
+    if !ok then (st, []) else
+    match c.toNat?, e.toNat?, p.toNat? with
+    | some c, some e, some p => ({ st with srv := m.addMapping c e p }, [])
+    | _, _, _ => (st, [])
+  | ["cspawn", c, p] =>
+    match c.toNat?, p.toNat?, obs.head?.map toks with
+    | some c, some p, some ts =>
+      match kvNat ts "bits" with
+      | some b => ({ st with cents := ((c, b), p) :: st.cents }, [])
+      | none => (st, [])
+    | _, _, _ => (st, [])
+  | ["connect", c] =>
+    if !ok then (st, []) else
+    match c.toNat? with
+    | some c => ({ st with srv := m.connect c (!st.authCheck && !st.authCustom) }, [])
+    | none => (st, [])
+  | ["auth", c] =>
+    if !ok then (st, []) else
+    match c.toNat? with
+    | some c => ({ st with srv := m.authorize c }, [])
+    | none => (st, [])
+  | ["disconnect", c] =>
+    if !ok then (st, []) else
+    match c.toNat? with
+    | some c => ({ st with srv := m.disconnect c }, [])
+    | none => (st, [])
+  | ["start"] => if ok then ({ st with srv := m.start }, []) else (st, [])
+  | ["stop"] => if ok then ({ st with srv := m.stop }, []) else (st, [])
+  | ["deliver", c, "c2s", "0", _] =>
+    match c.toNat?, obs.head?.map toks with
+    | some c, some ("ok" :: ts) =>
+      match kvHex ts "hex" with
+      | some bs => ({ st with srv := m.receiveAck c (Wire.decodeAcks bs) }, [])
+      | none => (st, [])
+    | _, _ => (st, [])
+  | ["deliver", c, "c2s", "1", _] =>
+    -- the ProtocolHash trigger of the default authorization: equal registrations on both sides
+    match c.toNat?, obs.head?.map toks with
+    | some c, some ("ok" :: _) => ({ st with srv := m.authorize c }, [])
+    | _, _ => (st, [])
+  | ["junk", c, "0", hex] =>
+    if !ok then (st, []) else
+    match c.toNat?, parseHex hex with
+    | some c, some bs => ({ st with srv := m.receiveAck c (Wire.decodeAcks bs) }, [])
+    | _, _ => (st, [])
+  | "sframe" :: rest =>
+    if obs = ["skip"] || obs.any (·.startsWith "panic") then ({ st with modelOff := true }, []) else
+    let ticked := rest.head? = some "tick=1"
+    let ms := ((rest.getD 1 "").drop 3).toString.toNat?.getD 10
+    match obs.getLast?.map toks with
+    | some ("srv" :: ts) =>
+      let fm := decodeFrame st obs
+      let (m1, ran, outs) := m.frameBegin ticked
+      let realRan : Bool := kv ts "repl" == some "1"
+      let tick := (kvNat ts "tick").getD 0
+      let vRan := if ran == realRan then [] else
+        [Verdict.mismatch "SRV" s!"tick {tick}: send_replication ran = {realRan} in the implementation, {ran} in the model"]
+      let vTick := if tick = m1.tick then [] else [Verdict.mismatch "SRV" s!"ServerTick impl {tick} model {m1.tick}"]
+      let clients := (m1.clients.map (·.1))
+      let vMsgs := clients.flatMap fun c => compareClient st c (outs.lookup c) fm tick
+      let parts (c : Nat) : List (List Nat) :=
+        (fm.mutates.filter (·.1 = c)).map fun (_, mm, _) => mm.ents.filterMap fun e => lookupBits st e.ent
+      let elapsed := st.elapsed + ms
+      let m2 := m1.frameEnd ran elapsed parts
+      let vs := vRan ++ vTick ++ vMsgs
+      -- after a divergence the model is switched off for the rest of the case (one report per case)
+      ({ st with srv := m2, elapsed := elapsed, modelOff := !vs.isEmpty }, vs)
+    | _ => (st, [])
+  | _ => (st, [])
+
 def bump (st : State) (k : String) : State := { st with stats := k :: st.stats }
 
 /-- Handle one record of a sys case. -/
-def handle (st : State) (inp : List String) (obs : List String) : State × List Verdict :=
+def handleOracles (st : State) (inp : List String) (obs : List String) : State × List Verdict :=
   let st := { st with ops := st.ops + 1 }
   match inp with
   | "spawn" :: _ =>
@@ -619,8 +814,14 @@ def handle (st : State) (inp : List String) (obs : List String) : State × List 
   | "drop" :: _ => (bump st "sys.drop", [])
   | _ => (st, [])
 
+def handle (st : State) (inp : List String) (obs : List String) : State × List Verdict :=
+  let (st, v1) := modelStep st inp obs
+  let (st, v2) := handleOracles st inp obs
+  (st, v1 ++ v2)
+
 def init (hdr : List String) : State :=
   { whitelist := kv hdr "policy" = some "white", track := kv hdr "track" = some "1",
-    sync := kv hdr "sync" = some "1", nclients := (kvNat hdr "clients").getD 1, authCheck := kv hdr "auth" = some "check" }
+    sync := kv hdr "sync" = some "1", nclients := (kvNat hdr "clients").getD 1, authCheck := kv hdr "auth" = some "check", authCustom := kv hdr "auth" = some "custom",
+    srv := { white := kv hdr "policy" = some "white", rates := modelRates } }
 
 end Driver.Sys
